@@ -7,8 +7,11 @@ package gocore
 import (
 	"encoding/json"
 	"fmt"
+	"hash/fnv"
+	"os"
 	"strconv"
 	"strings"
+	"sync"
 )
 
 // N is a node of the abstract syntax (expression or statement): the JSON form of the
@@ -224,6 +227,47 @@ func show(x interface{}) {
 }
 `
 
+// Concrete syntax. GoGen.tla generates ABSTRACT programs; where Go offers several spellings of the same
+// construct (integer literal bases, x := e / var x = e / var x int = e, x++ / x += 1 / x = x + 1,
+// if c / if v := c; v) the renderer picks one per occurrence from a generator seeded by the program
+// itself, so that a replayed program is rendered identically. Pinned witnesses (named programs) and
+// GOCORE_PLAIN=1 keep the canonical spelling. The meaning is the same by the language specification;
+// the native build of the rendered source stands behind every disagreement (SPEC-ERROR otherwise).
+type styler struct{ s, n uint64 }
+
+func (st *styler) pick(k int) int {
+	if st == nil || st.s == 0 {
+		return 0
+	}
+	st.n++
+	x := st.s + st.n*0x9E3779B97F4A7C15
+	x ^= x >> 31
+	x *= 0xBF58476D1CE4E5B9
+	x ^= x >> 29
+	return int(x % uint64(k))
+}
+
+var (
+	style    *styler
+	renderMu sync.Mutex
+)
+
+func (p *Prog) styler(salt uint64) *styler {
+	if p.Name != "" || os.Getenv("GOCORE_PLAIN") != "" {
+		return nil
+	}
+	b, _ := json.Marshal(p.Main)
+	h := fnv.New64a()
+	h.Write(b)
+	for _, n := range []string{"f", "g", "two", "h"} {
+		if f := p.Funcs[n]; f != nil {
+			fb, _ := json.Marshal(f.Body)
+			h.Write(fb)
+		}
+	}
+	return &styler{s: h.Sum64() ^ salt | 1}
+}
+
 type rend struct {
 	sb   strings.Builder
 	ind  int
@@ -270,6 +314,16 @@ func (r *rend) line(format string, a ...any) {
 func Expr(e *N) string {
 	switch e.K {
 	case "lit":
+		if v := e.V(); v >= 0 {
+			switch style.pick(7) {
+			case 4:
+				return fmt.Sprintf("0x%x", v)
+			case 5:
+				return fmt.Sprintf("0o%o", v)
+			case 6:
+				return fmt.Sprintf("0b%b", v)
+			}
+		}
 		return fmt.Sprint(e.V())
 	case "var":
 		return e.X()
@@ -527,15 +581,29 @@ func (r *rend) stmt(s *N) {
 	case "asg":
 		r.line("%s = %s", s.X(), Expr(s.E))
 	case "def":
-		r.line("%s := %s", s.X(), Expr(s.E))
+		switch style.pick(5) {
+		case 3:
+			r.line("var %s = %s", s.X(), Expr(s.E))
+		case 4:
+			r.line("var %s int = %s", s.X(), Expr(s.E))
+		default:
+			r.line("%s := %s", s.X(), Expr(s.E))
+		}
 		r.line("_ = %s", s.X())
 	case "opasg":
 		r.line("%s %s= %s", s.X(), map[string]string{"add": "+", "sub": "-"}[s.Op], Expr(s.E))
 	case "inc":
-		if s.D > 0 {
-			r.line("%s++", s.X())
-		} else {
-			r.line("%s--", s.X())
+		op := "+"
+		if s.D <= 0 {
+			op = "-"
+		}
+		switch style.pick(4) {
+		case 2:
+			r.line("%s %s= 1", s.X(), op)
+		case 3:
+			r.line("%s = %s %s 1", s.X(), s.X(), op)
+		default:
+			r.line("%s%s%s", s.X(), op, op)
 		}
 	case "asg2":
 		r.line("%s, %s = two(%s)", s.X(), s.Y, Expr(s.E))
@@ -564,7 +632,11 @@ func (r *rend) stmt(s *N) {
 		}
 		r.line("%s(%s)", s.F, strings.Join(as, ", "))
 	case "if":
-		r.line("if %s {", Expr(s.cond()))
+		if style.pick(4) == 3 {
+			r.line("if cnd := %s; cnd {", Expr(s.cond()))
+		} else {
+			r.line("if %s {", Expr(s.cond()))
+		}
 		r.ind++
 		r.block(s.Th)
 		r.ind--
@@ -1035,6 +1107,10 @@ func (r *rend) stmt(s *N) {
 
 // Funcs renders the declarations of f, g and two.
 func (p *Prog) FuncDecls() string {
+	renderMu.Lock()
+	defer renderMu.Unlock()
+	style = p.styler(0x5bd1e995)
+	defer func() { style = nil }()
 	r := &rend{}
 	f := p.Funcs["f"]
 	r.line("func f(p int) (r int) {")
@@ -1073,6 +1149,10 @@ func (p *Prog) FuncDecls() string {
 
 // MainBody renders the statements of main, one top-level statement per element.
 func (p *Prog) MainStmts() []string {
+	renderMu.Lock()
+	defer renderMu.Unlock()
+	style = p.styler(0)
+	defer func() { style = nil }()
 	var out []string
 	r := &rend{ind: 1} // one renderer: labels must be unique over the whole of main
 	for _, s := range p.Main {
